@@ -9,7 +9,6 @@
   the input is exhausted (missing bytes read as zero).
 -/
 import IgrisModel.C09.Bounded
-import Mathlib.Tactic.Linarith
 namespace Igris.C09
 open Igris.Proto
 
@@ -147,17 +146,29 @@ theorem vsizes_foldl_mapInsert (kt : Ty) (kvs acc : List Val) :
 
 theorem bnd_arith_vec (S n B c1 c2 : Nat) (hS : S ≤ n * B + 65535 * (B * c2)) (hn : n ≤ 65535) (hc : n = 0 ∨ 1 ≤ c1) :
     1 + S ≤ (1 + B) * (1 + 65535 * (c1 + c2)) := by
+  have hX : (1 + B) * (1 + 65535 * (c1 + c2)) = (1 + 65535 * (c1 + c2)) + B * (1 + 65535 * (c1 + c2)) := by
+    rw [Nat.add_mul, Nat.one_mul]
+  rw [hX]
   rcases hc with h | h
   · subst h
-    nlinarith [Nat.zero_le (B * c1), Nat.zero_le c1, Nat.zero_le c2, Nat.zero_le B]
+    have h1 : B * (65535 * c2) ≤ B * (1 + 65535 * (c1 + c2)) := Nat.mul_le_mul_left B (by omega)
+    rw [Nat.mul_left_comm] at h1
+    rw [Nat.zero_mul] at hS
+    omega
   · have h1 : n * B ≤ 65535 * B := Nat.mul_le_mul_right B hn
-    have h2 : B ≤ B * c1 := Nat.le_mul_of_pos_right B h
-    nlinarith [h1, h2, Nat.zero_le (B * c2), Nat.zero_le c1, Nat.zero_le c2]
+    have h2 : B * (65535 + 65535 * c2) ≤ B * (1 + 65535 * (c1 + c2)) := Nat.mul_le_mul_left B (by omega)
+    rw [Nat.mul_add, Nat.mul_left_comm B 65535 c2, Nat.mul_comm B 65535] at h2
+    omega
 
 theorem bnd_arith_two (s1 s2 B1 B2 c1 c2 k : Nat) (h1 : s1 ≤ B1 * (1 + 65535 * c1)) (h2 : s2 ≤ B2 * (1 + 65535 * c2)) :
     k + s1 + s2 ≤ (k + B1 + B2) * (1 + 65535 * (c1 + c2)) := by
-  nlinarith [Nat.zero_le (B1 * c2), Nat.zero_le (B2 * c1), Nat.zero_le (k * c1), Nat.zero_le (k * c2),
-    Nat.zero_le c1, Nat.zero_le c2]
+  have hx1 : 1 + 65535 * c1 ≤ 1 + 65535 * (c1 + c2) := by omega
+  have hx2 : 1 + 65535 * c2 ≤ 1 + 65535 * (c1 + c2) := by omega
+  have a1 := Nat.le_trans h1 (Nat.mul_le_mul_left B1 hx1)
+  have a2 := Nat.le_trans h2 (Nat.mul_le_mul_left B2 hx2)
+  have a0 : k ≤ k * (1 + 65535 * (c1 + c2)) := Nat.le_mul_of_pos_right k (by omega)
+  rw [Nat.add_mul, Nat.add_mul]
+  omega
 
 mutual
 theorem bndB : ∀ (ty : Ty), Bnd (blank ty) (decodeB ty)
